@@ -135,7 +135,13 @@ def decode_all(dec, tys):
             if t[0] == "Bits":
                 bits = []
                 for _ in range(t[1]):
-                    bits += dec.decode_bits()
+                    got = dec.decode_bits()
+                    bits += got
+                    # what an application may do with the list it was handed (observation already copied): edit it in
+                    # place — it must be the caller's own list, not a row of some table the next decode reads again
+                    if isinstance(got, list):
+                        got.reverse()
+                        got.append(True)
                 raw.append(("Bits", bits))
             elif t[0] == "Str":
                 raw.append(("Str", dec.decode_string(t[1])))
